@@ -184,8 +184,10 @@ CHECKS = {
              'calculus derives a matrix M, and every terminating execution (any branch outcomes, any loop counts), the exact '
              'final value of every variable, as a polynomial in the inputs, has the shape its column of M prescribes: only '
              'listed variables, a max-listed variable only as one summand with coefficient one, at most one such summand, '
-             'never next to a weak-listed variable. This is about the calculus; it reaches the code through C01 (reported '
-             'matrices = derivable matrices) and, every run, directly: the real strict-mode bounds for EVERY valid choice are '
+             'never next to a weak-listed variable. Chained with C01 and the bound model into an end-to-end theorem on the model '
+             'of the analysis (reported_bounds_respected[_total]): for a supported function the analysis returns a result, and '
+             'for EVERY valid choice of the reported choice object the reported (m,w,p) triple of every variable is respected '
+             'by every execution. The tie to the code is checked every run, directly: the real strict-mode bounds for EVERY valid choice are '
              'checked against exact symbolic executions computed in Lean along enumerated / sampled paths; counted-loop '
              'recognition is checked on guards written in the body.',
         design_ref='DESIGN.md §5 C03',
@@ -212,7 +214,11 @@ CHECKS = {
              'and diagonal cells of a fixpoint result hold no 0-monomial, so no write can land on a monomial carrying the '
              'scalar of the shared zero / unit polynomial. Object identity, set ordering and the process are explored: random '
              'histories of analyses (function / loop mode, fin) in one process vs fresh interpreters, multi-function files, '
-             'PYTHONHASHSEED 1..n, snapshots of matrix.ZERO/UNIT and of the caller tree after every analysis.',
+             'PYTHONHASHSEED 1..n, snapshots of matrix.ZERO/UNIT and of the caller tree after every analysis. The file-level '
+             'drivers Analysis.run / LoopAnalysis.run (syntax gate, result dictionary, which loops are analysed on which tree) '
+             'are modelled (Model/Run.lean), proved to assemble a file result per function independently of the other '
+             'functions (file_results_are_per_function, file_failures_are_per_function, file_loop_results_are_per_function) '
+             'and diffed against the real drivers on multi-function files, strict and fin on/off.',
         design_ref='DESIGN.md §5 C13',
         note='CPython aliasing and hash ordering are runtime behaviour: explored, not proved.'),
 }
